@@ -53,6 +53,13 @@ out.append('* `C04-e1`: an overflow in the below-the-wager test of `Raise` for l
 out.append('* `C04-f1`: the preflop round is skipped when only one seat still has chips after the blinds, although the other seat owes part of the big blind. No betting round takes place, so there is no turn order to get wrong; what is broken is C05\'s "never closed while a player with chips has put in less than the wager to match", and **C05 catches the change** (`closed-early/owes`).')
 out.append('* `C04-f2`: a second posting of the blinds by a seat that has posted *on its own through the per-player method* (`Player(i).PayBlinds()`) is refused half-way through the table operation. On the pinned code that very sequence charges the seat twice: per-player posting followed by the table operation is not a sequence the engine supports (nothing in the repository does it), so the generators do not produce it, and a check that did would alarm on the unchanged tree.')
 out.append('* `C08-a` (round 1): removed the activation of the seats the button passes, on the grounds that they are opened together with the rest of the seats anyway. It broke the heads-up case and was caught; since the repair of finding F9 (`891eda8`) opens those seats before heads-up positions are decided, the seed\'s own demonstration passes with the change applied - the change has become property-preserving and the silence is right (the same edit survives as a mutant in §10.5).')
+out.append('* `C07-h1` (round 8): a process-wide cache of five-card evaluations keyed without the ranking table. Every replica of C07 lives in the same process and is polluted alike, so resuming shows no difference; what is broken is the reported evaluation, and **C10 catches the change** (`incoherent`).')
+out.append('* `C10-h2`: showdown scores derived from the *position* in a sorted list, so tied hands no longer tie. The reported hands are all correct (C10\'s subject); the payout is wrong, and **C02 catches the change** (`engine/amount/exact`).')
+out.append('* `C11-h2`: identical in effect to `C12-h2` (an all-in raise that does not update the minimum raise): only an *extra* raise offer results, which C11 does not forbid; carrying the undersized raise out is a C12 violation and **C12 catches the change**.')
+out.append('* `C13-h2`: only shows in a game with a small blind but neither big blind nor dealer blind; such a structure is not generated (C13\'s configurations have a big blind, or are button-blind / ante-only games).')
+out.append('* `C18-h1`: only shows when a seat manager is restored (`ApplyStates`) from a snapshot of a *smaller* table than the one it was built for. The pinned code does not support that either (its `Join(any)` then hands out the stale seats beyond the new size), nothing in the repository does it, and the histories restore into a manager of the same size.')
+out.append('* `C19-h1`: opens a table while the status is Pending *after the competition had already been started once and was put back*. C19 forbids tables \"before the competition has started\"; a competition that goes back to Pending is not generated.')
+out.append('* `C19-h2`: needs a `requestTableFn` callback that fails (see `C19-f1`).')
 out.append('* `C14-g1`: only shows in a configuration that requires more hole cards than a player holds (3 required of 2). The pinned engine accepts that configuration but cannot evaluate it (it reports four-card "hands"), so it is not among the accepted configurations the generators draw from.')
 out.append('* `C19-f1`: only shows when a table *refuses* the players the regulator assigns to it (the assign callback returns an error). C09/C19/C20 are stated for "tables that follow its instructions"; on the pinned code a refusing table already loses the refused players or makes the dispatch loop spin, so refusals are outside the domain (listed under the assumptions of these checks).')
 out.append('')
